@@ -209,6 +209,11 @@ class Property(object):
 
         if direct:
             if _debug: Property._debug("    - direct write")
+
+            # a plain list given for an array stands for the array with
+            # these elements, indexes count from one
+            if (arrayIndex is None) and isinstance(value, list) and issubclass(self.datatype, Array):
+                value = self.datatype(value)
         else:
             # see if it must be provided
             if not self.optional and value is None:
